@@ -233,6 +233,9 @@ pub fn run(rep: &'static Report) {
         }));
     let hist = crate::checks::c06::explore_for(rep, cnt, if thorough { 4 } else { 3 }, f);
     let cli = crate::checks::c20::cli_counts_subset(rep, if thorough { 400 } else { 60 });
+    for smp in cnt.samples.lock().unwrap().iter().take(3) {
+        rep.sample(smp.clone());
+    }
     let q = cnt.queries.load(Ordering::Relaxed);
     rep.set("evaluations", q);
     rep.set("enumeration", desc);
